@@ -242,7 +242,7 @@ def as_setpred(v, st):
   if isinstance(v, VRef):
     k = v.ty.kind
     heap = heap_of(v, st)
-    if k == 'set' or k == 'any' or k == 'opt':
+    if k in ('set', 'any', 'opt', 'union'):
       return lambda e: heap.mem(v.t, e)
     if k == 'dict':
       return lambda e: heap.dom(v.t, e)
